@@ -119,7 +119,7 @@ def run(tier):
                           sink=lambda b: e1cases.append(flavoured(b[3:])) if b.startswith('C;;') else None)
     v.add_tlc(r0)
     # E1: TLC-generated corrupted frames with the allowed observations, replayed on the real receiver
-    res1 = vf.run_scripts('regp', [e1cases[i:i + 200] for i in range(0, len(e1cases), 200)], 'C07', name='mc')
+    res1 = vf.run_scripts('regp', [e1cases[i:i + 200] for i in range(0, len(e1cases), 200)], 'C07', name='mc', flavours=3, flav_every=25)
     v.exec_problems(res1, 'regp')
     v.cov['traces_validated_against_impl'] += len(e1cases)
     v.cov['evaluations'] += res1.checked
@@ -128,7 +128,7 @@ def run(tier):
     ss = []
     for rnd in vf.rounds(tier, 3):
         ss += list(scripts(rnd, quick))
-    vf.trace_flow(v, 'RegpTrace.tla', 'RegpTrace.cfg', 'regp', ss, 'cor')
+    vf.trace_flow(v, 'RegpTrace.tla', 'RegpTrace.cfg', 'regp', ss, 'cor', flavours=3)
     # bursts across a checksum-field boundary that the real code accepted as valid frames: the open finding
     import json as _json, glob as _glob, os as _os
     crossing = accepted = 0
